@@ -120,8 +120,12 @@ func runExport(rng *Rng, n int, st *Stats, param string) ([]string, []any) {
 				st.Count("exports-with-2+-validators")
 			}
 			// the fresh chain has to commit its first block before it can export (export reads the last committed height)
-			r2 := w2.HonestBlock(nil, gasReq(w2.Height, 0), goattypes.BridgeRequests{}, goattypes.RelayerRequests{})
-			_ = r2
+			// (an empty block: no transactions, so the pending hand-over queues are not consumed)
+			if _, ferr := w2.Finalize(nil, w2.ValAddr); ferr != nil {
+				st.Violate("C18", "import", "app-first-block-after-import-fails", "the first block after the import fails: "+ferr.Error(), desc)
+				return
+			}
+			w2.Commit()
 			w3, pm3 := NewWorldFromExport(seed, exp.AppState, exp.Height)
 			if w3 == nil || pm3 != "" || w3.InitErr != nil {
 				return
@@ -129,8 +133,10 @@ func runExport(rng *Rng, n int, st *Stats, param string) ([]string, []any) {
 			defer w3.Close()
 			// compare module by module through a second import: both fresh applications, initialised from the same
 			// export, must export the same state after the same (empty) first block
-			r3 := w3.HonestBlock(nil, gasReq(w3.Height, 0), goattypes.BridgeRequests{}, goattypes.RelayerRequests{})
-			_ = r3
+			if _, ferr := w3.Finalize(nil, w3.ValAddr); ferr != nil {
+				return
+			}
+			w3.Commit()
 			e2, err2 := w2.App.ExportAppStateAndValidators(false, nil, nil)
 			e3, err3 := w3.App.ExportAppStateAndValidators(false, nil, nil)
 			if err2 != nil || err3 != nil {
